@@ -594,7 +594,9 @@ pub fn judge_read(
     let weak = facts.weak_keys;
     if !keyed {
         // positional medium: names are not on the wire, structural faults are meaningless
-        if !any_applied && !is_dec {
+        if !any_applied && !is_dec && weak {
+            expect_no_wrong_data(out, "positional medium, unreachable stored value");
+        } else if !any_applied && !is_dec {
             expect_ok_equal(out, a1, "fault-free positional round trip");
         } else if !top_drop && !top_unknown && !top_dup && !top_reorder && !nested_reorder && !nested_struct {
             expect_no_wrong_data(out, "positional medium");
